@@ -309,7 +309,7 @@ func TestC14Client(t *testing.T) {
 		c := genClientCase(rt)
 		if name, msg := checkClient(rec, c); msg != "" {
 			rec.Violation(name, msg, c)
-			rt.Fatalf("%s", msg)
+			rt.Fatalf("%s", name) // constant text: rapid only keeps shrinking while the failure message stays the same
 		}
 	})
 }
